@@ -1262,6 +1262,13 @@ func (l *Listener) packetInput(data []byte, addr net.Addr) {
 		return
 	}
 
+	// A closed listener accepts no new connections: nobody could Accept them.
+	select {
+	case <-l.die:
+		return
+	default:
+	}
+
 	// Now we have a valid conversation id here without a session object, create a new session.
 	// do not let the new sessions overwhelm accept queue
 	if len(l.chAccepts) >= cap(l.chAccepts) {
@@ -1277,6 +1284,27 @@ func (l *Listener) packetInput(data []byte, addr net.Addr) {
 	l.sessionLock.Unlock()
 	verifYield("listener.accept")
 	l.chAccepts <- s
+
+	// the listener may have been closed while the session was being created
+	select {
+	case <-l.die:
+		l.closePendingSessions()
+	default:
+	}
+}
+
+// closePendingSessions closes the sessions that are still waiting in the accept
+// backlog. Once the listener is closed no Accept can return them, so nobody
+// else would ever release their goroutine and scheduled updates.
+func (l *Listener) closePendingSessions() {
+	for {
+		select {
+		case s := <-l.chAccepts:
+			s.Close()
+		default:
+			return
+		}
+	}
 }
 
 func (l *Listener) notifyReadError(err error) {
@@ -1397,6 +1425,8 @@ func (l *Listener) Close() error {
 	if !once {
 		return errors.WithStack(io.ErrClosedPipe)
 	}
+
+	l.closePendingSessions()
 
 	if l.ownConn {
 		return l.conn.Close()
